@@ -29,6 +29,17 @@ def step (line : String) : String :=
       match bbox d ρs ρ with
       | none => return "err:rejected"
       | some b => return s!"flat {showBox b}"
+    | "bboxrot3" => do
+      -- Rotate(D, M 3x3, c).bounding_box(params) for a 3-D domain D whose own box is flat
+      let d ← parseDom rat
+      let ρs ← many (parseEnv rat)
+      let m ← many rat; let c ← many rat
+      match bboxCall d ρs with
+      | some (.inl bd) =>
+        match bboxRotate3 bd m c with
+        | some b => return s!"flat {showBox b}"
+        | none => return "err:rejected"
+      | _ => return "err:rejected"
     | "rotold" => do
       -- the pinned snapshot's Rotate box on an inner box
       let bd ← many (do let a ← rat; let b ← rat; pure (a, b))
